@@ -200,6 +200,18 @@ func execCStatus(ops []string, st *Stats) ([]string, []string) {
 				}
 				return "fatal"
 			}
+			inFlight := false
+			for _, f := range flight {
+				if f.line == d.line {
+					inFlight = true
+				}
+			}
+			if !inFlight {
+				// delete of a compaction that was refused or already deleted (it finds another compaction's
+				// equal range and a re-used table id): the callers' hypothesis is violated from here on
+				allProd = false
+				st.Inc("del:not-in-flight")
+			}
 			v.Delete(d.tl, d.nl, d.this, d.next, d.size, d.ids)
 			st.Inc("del:ok")
 			for j, f := range flight {
